@@ -98,14 +98,14 @@ def check(ctx, replay=None):
     for a in STATEMENT_ALIASES:
         spellings += case_masks(a, 1 << 12)
     for a in NO_TABLE:
-        spellings += case_masks(a, 64 if th else 8)
+        spellings += case_masks(a, 4096 if th else 8)
     spellings += JUNK
     spellings = list(dict.fromkeys(spellings))
     if replay:
         rep = json.load(open(replay))
         spellings = rep.get("spellings", spellings)
     dumps = []
-    for i in range(8 if th else 4):
+    for i in range(24 if th else 4):
         rc, out, err = ctx.run([os.path.join(bindir, "archdump")], input=json.dumps(spellings), timeout=120)
         if rc != 0:
             raise vlib.Machinery("archdump failed: " + err[-1000:])
